@@ -250,9 +250,11 @@ def _all_paths_done_ignores_empty_slots(ctx: Ctx):
     rd = ReachingDefs(f.node)
     pm = parent_map(f.node)
     adv = [c for c in own_calls(f.node) if call_name(c) == "beam_search_advance"]
-    if len(adv) != 1 or len(adv[0].args) < 3 or not isinstance(adv[0].args[2], ast.Name):
+    advf = pkg.func("_decoding::beam_search_advance")
+    sarg = bind_args(adv[0], advf, False).arg_for(advf.params[2].name) if len(adv) == 1 else None  # (positional or by keyword)
+    if not isinstance(sarg, ast.Name):
         raise AnalysisError("C04: BeamSearch.forward no longer calls beam_search_advance(log_probs_t, width, <scores>, ...)")
-    score = adv[0].args[2].id
+    score = sarg.id
     sites = []
     for n in own_nodes(f.node):
         if isinstance(n, ast.Call) and isinstance(n.func, ast.Attribute) and n.func.attr == "all" and n.args and u(n.args[0]) == "1" \
